@@ -283,8 +283,15 @@ class Gen:
             if n == 0:
                 return None
             return "O1 %d %s" % (r.randrange(n), dy(self.objv()))
+        if k < 49 and k >= 43 and self.scaled and self.solved and not self.risky:
+            # the vector change functions scale infinite entries of a persistently scaled LP (recorded finding)
+            noinf = True
+        else:
+            noinf = False
         if k < 45:                       # vector versions
             ps = [self.side_pair() for _ in range(m)]
+            if noinf:
+                ps = [(a if a > -INF else -4.0, b if b < INF else 6.0) for a, b in ps]
             c = r.randrange(3)
             if c == 0:
                 new = [min(p[0], self.rhs[i]) if p[0] <= self.rhs[i] else (self.rhs[i] if self.rhs[i] < INF else 0.0) for i, p in enumerate(ps)]
@@ -299,6 +306,8 @@ class Gen:
             return "GV %d %s %s" % (m, " ".join(dy(x) for x in self.lhs), " ".join(dy(x) for x in self.rhs))
         if k < 47:
             ps = [self.bound_pair() for _ in range(n)]
+            if noinf:
+                ps = [(a if a > -INF else -3.0, b if b < INF else 5.0) for a, b in ps]
             c = r.randrange(3)
             if c == 0:
                 new = [p[0] if p[0] <= self.up[j] else (self.up[j] if self.up[j] < INF else 0.0) for j, p in enumerate(ps)]
@@ -572,11 +581,15 @@ def judge(case, hl, ml, crashed):
     prev_bv = "none"
     prev = ({}, {})
     desync = False
+    freed = False        # a row or column became free (both sides infinite) since the last optimize
+    infvec = False       # a vector change with an infinite entry was applied to a persistently scaled LP
+    intscale = case["set"]["persist"] == 0 and case["set"]["scaler"] != 0 and case["set"]["simplifier"] == 0
     for j, o in enumerate(ops):
         name = o.split()[0]
         if j >= len(hl):
             if crashed is not None:
-                res.append(("crash:%s%s" % (name, (":scaler%d" % case["set"]["scaler"]) if name == "OPT" else ""), "the implementation crashed (rc=%s) in %s: %s" % (crashed[0], o[:120], crashed[1][-300:]), j))
+                unl = prev[1].get("ld") == "0" and prev[1].get("hb") == "1"
+                res.append(("%s:%s%s" % ("crash-unloaded-basis" if unl else "crash", name, (":scaler%d" % case["set"]["scaler"]) if (name == "OPT" and not unl) else ""), "the implementation crashed (rc=%s) in %s: %s" % (crashed[0], o[:120], crashed[1][-300:]), j))
             else:
                 res.append(("short-output", "harness printed fewer observations than operations", j))
             break
@@ -592,7 +605,8 @@ def judge(case, hl, ml, crashed):
             res.append(("unmodelled-op", "operation not understood: %s" % o[:100], j))
             break
         if "EXC" in h1:
-            res.append(("exception:" + name, "the implementation threw '%s' in %s" % (bytes.fromhex(h1["EXC"]).decode("latin-1"), o[:120]), j))
+            unl = prev[1].get("ld") == "0" and prev[1].get("hb") == "1"     # a basis kept in the arrays of SoPlexBase
+            res.append((("exception-unloaded-basis:" if (unl or prev_bv.split("(")[0] in ("dim", "cnt")) else "exception:") + name, "the implementation threw '%s' in %s" % (bytes.fromhex(h1["EXC"]).decode("latin-1"), o[:120]), j))
             break
         diff = []
         for key in CMPKEYS:
@@ -608,10 +622,13 @@ def judge(case, hl, ml, crashed):
                 sig = "flags-mismatch:%s:%s" % (name, ",".join(fl))
             elif diff == ["perm"]:
                 sig = "perm-mismatch:" + name
-            elif (set(diff) <= {"A", "AT"} and prev[1].get("sc") == "1"
+            elif (set(diff) <= {"nnz", "A", "AT", "obj", "lo", "up", "lhs", "rhs"} and prev[1].get("sc") == "1"
                   and grows(o, int(prev[0].get("m", "0")), int(prev[0].get("n", "0")))):
                 # DESIGN.md section 9 item 20
                 sig = "implicit-growth-scaled:" + name
+            elif name == "OPT" and ("n" in diff or "m" in diff):
+                # optimize() itself changed the LP: vectors are lost when the LP is copied / loaded
+                sig = "vectors-lost-on-copy:OPT:ld%s" % prev[1].get("ld", "?")
             else:
                 sig = "lp-mismatch:%s:%s:sc%s" % (name, ",".join(diff), h2.get("sc", "?"))
             res.append((sig, "after %s the accessors and the model disagree in %s\n impl : %s\n model: %s" % (
@@ -627,7 +644,7 @@ def judge(case, hl, ml, crashed):
             # dim / cnt: wrong dimension or wrong number of basic variables (C06); undef / bnd / fix: a status that does not fit
             # the bounds of its variable (validity in the sense of C04)
             cls = "basis-invalid" if kind in ("dim", "cnt") else "basis-status"
-            res.append(("%s:%s:%s:ld%s" % (cls, kind, name, h2.get("ld")), "after %s hasBasis() is true but the reported basis is invalid: %s" % (o[:100], bv), j))
+            res.append(("%s:%s:%s:ld%s%s" % (cls, kind, name, h2.get("ld"), ":intscale" if (intscale and name == "OPT") else ""), "after %s hasBasis() is true but the reported basis is invalid: %s" % (o[:100], bv), j))
         prev_bv = bv
         for key in ("vg", "cf", "rt"):
             if h2.get(key, "ok") != "ok":
@@ -636,18 +653,47 @@ def judge(case, hl, ml, crashed):
         if name == "OPT":
             a = int(h1.get("ost", "0"))
             oa = undy(h1.get("oobj", "0:0"))
-            for tag, what in (("g", "a new solver with the same settings"), ("f", "a new solver with default settings")):
+
+            def differs(tag):
                 b = int(h1.get(tag + "st", "0"))
                 ob = undy(h1.get(tag + "obj", "0:0"))
-                pre = "resolve" if tag == "g" else "resolve-dflt"
+                if a != b:
+                    return "status:%s/%s" % (ST.get(a, a), ST.get(b, b)), "returns %s" % ST.get(b, b)
+                if a == 1 and not (abs(oa - ob) <= 1e-6 * max(1.0, abs(oa), abs(ob))):
+                    return "value", "returns objective %r" % ob
+                return None
+            dg_, dp_, df_ = differs("g"), differs("p"), differs("f")
+            mine = "%s%s" % (ST.get(a, a), (" with objective %r" % oa) if a == 1 else "")
+            if dg_ and dp_:
+                # neither a new solver with the same settings nor a plain one agrees: the modification history matters
+                pre = "resolve"
                 if desync:
                     pre = "sense-desync:" + pre
-                if a != b:
-                    res.append(("%s-status:%s/%s" % (pre, ST.get(a, a), ST.get(b, b)), "optimize after the history returns %s, %s given the reported LP returns %s" % (ST.get(a, a), what, ST.get(b, b)), j))
-                    break
-                elif a == 1 and not (abs(oa - ob) <= 1e-6 * max(1.0, abs(oa), abs(ob))):
-                    res.append((pre + "-value", "optimize after the history returns objective %r, %s given the reported LP returns %r" % (oa, what, ob), j))
-                    break
+                elif infvec:
+                    pre = "scaled-vector-inf:" + pre
+                elif freed:
+                    pre = "freed-nonbasic:" + pre
+                res.append(("%s-%s" % (pre, dg_[0]), "optimize after the history returns %s; a new solver with the same settings given the reported LP %s, "
+                            "a new solver without scaler and simplifier %s" % (mine, dg_[1], dp_[1]), j))
+            elif dg_ or dp_ or df_:
+                # the in-place solve agrees with at least one solve from scratch: the answer depends on the settings, not on the history
+                which = [tg for tg, dd in (("same", dg_), ("plain", dp_), ("default", df_)) if dd]
+                dd = dg_ or dp_ or df_
+                kind = dd[0]
+                both = {ST.get(a, a)} | {kind.split("/")[-1]}
+                if kind.startswith("status") and both <= {"INFEASIBLE", "UNBOUNDED", "INForUNBD"}:
+                    kind = "status:infeasible-or-unbounded"
+                res.append(("settings-dependent-%s" % kind, "optimize after the history returns %s, but new solvers given the reported LP disagree among "
+                            "themselves: %s" % (mine, "; ".join("%s settings %s" % (tg, dd2[1]) for tg, dd2 in (("same", dg_), ("plain", dp_), ("default", df_)) if dd2)), j))
+        if name in ("L1", "R1", "G1", "LV", "RV", "GV", "CR", "W1", "U1", "B1", "WV", "UV", "BV", "CC"):
+            def nfree(d, a, b):
+                x, y = d.get(a, "").split(","), d.get(b, "").split(",")
+                return [i for i, (p, q) in enumerate(zip(x, y)) if p and q and canon(p) == "-inf" and canon(q) == "inf"]
+            for a, b in (("lhs", "rhs"), ("lo", "up")):
+                if set(nfree(h1, a, b)) - set(nfree(prev[0], a, b)):
+                    freed = True
+            if name in ("LV", "RV", "GV", "WV", "UV", "BV") and prev[1].get("sc") == "1" and any(canon(x) in ("inf", "-inf") for x in o.split()[2:]):
+                infvec = True
         prev = (h1, h2)
     return res
 
